@@ -455,6 +455,7 @@ func runProperty(prop string, tier string, seed int, only string) (*runResult, e
 		var aggJobs []job
 		var pending []pendingSites
 		var probes []*Obligation
+		var hypProbes []*Obligation
 		for ii, inst := range insts {
 			c := newFnCtx(L, U, fn, sp, specs)
 			c.inst = inst
@@ -496,6 +497,21 @@ func runProperty(prop string, tier string, seed int, only string) (*runResult, e
 				probes = append(probes, probe)
 				res.ctxs[probe] = c
 			}
+			// vacuity guard for per-iteration clauses: the hypothesis of `A ==> B` must be
+			// satisfiable at some back edge (unsat = the clause says nothing)
+			{
+				var names []string
+				for n := range c.hypSites {
+					names = append(names, n)
+				}
+				sort.Strings(names)
+				for _, n := range names {
+					hp := &Obligation{Name: n + ".hyp_reachable", Kind: "cover", Func: fn.RelString(nil), Clause: "the hypothesis of the clause can hold at the end of some iteration (vacuity guard: must NOT be unsat)", Hyp: "true", Goal: or(c.hypSites[n]...), Cover: true, Props: sp.props}
+					hp.Script = c.script(hp, en)
+					hypProbes = append(hypProbes, hp)
+					res.ctxs[hp] = c
+				}
+			}
 			fr.Candidates += len(c.houdini)
 			for _, cd := range c.houdini {
 				if cd.alive {
@@ -536,6 +552,26 @@ func runProperty(prop string, tier string, seed int, only string) (*runResult, e
 				pending = append(pending, pendingSites{o: o, c: c, en: en})
 			}
 			_ = siteJobs
+		}
+		if len(hypProbes) > 0 {
+			var pj []job
+			for _, hp := range hypProbes {
+				pj = append(pj, job{o: hp, script: hp.Script, tmo: 3, probe: true})
+			}
+			dischargeAll(pj, seed)
+			for _, hp := range hypProbes {
+				if hp.Verdict != "unsat" {
+					continue
+				}
+				cl := strings.TrimSuffix(hp.Name, ".hyp_reachable")
+				msg := fmt.Sprintf("contract : the hypothesis of %s can never hold (vacuous clause); it is not counted as proved", cl)
+				res.errs = append(res.errs, "VACUOUS-CLAUSE: "+msg)
+				for _, o := range res.obls {
+					if baseName(o.Name) == cl && res.ctxs[o] == res.ctxs[hp] {
+						o.Vacuous = true
+					}
+				}
+			}
 		}
 		{
 			var pj []job
